@@ -340,11 +340,9 @@ def c02_annotations(tier: str):
     return d0 + d1
   # depth 2: constructors over a selection of depth-1 annotations
   inner = [
-      "Optional[int]", "Optional[A]", "Union[int, str]", "Union[A, C]", "List[int]", "List[A]",
-      "List[bool]", "Set[int]", "Dict[str, int]", "Tuple[int, str]", "Tuple[int, ...]",
-      "Tuple[()]", "Sequence[int]", "Iterable[int]", "Collection[int]", "Mapping[str, int]",
-      "Iterator[int]", "Type[A]", "Callable[..., Any]", "Callable[[int], str]", "Hashable",
-      "Sized", "SupportsInt", "list", "tuple", "dict", "type",
+      "Optional[int]", "Union[int, str]", "List[int]", "List[bool]", "List[A]",
+      "Dict[str, int]", "Tuple[int, str]", "Tuple[int, ...]", "Sequence[int]",
+      "Collection[int]", "Iterable[int]", "Type[A]", "Hashable", "Callable[..., Any]",
   ]
   d2 = []
   for form in C02_UNARY:
@@ -354,12 +352,12 @@ def c02_annotations(tier: str):
       if form == "Optional" and t.startswith("Optional"):
         continue
       d2.append(_un(form, t))
-  small = ["int", "str", "A", "None"]
+  small = ["int", "None"]
   for form in C02_BINARY:
+    if form.startswith(("Callable", "Mapping")):
+      continue
     for t in inner:
       for s in small:
-        if form.startswith("Callable"):
-          continue
         d2.append(form.format(t, s))
         d2.append(form.format(s, t))
   seen, out = set(), []
